@@ -231,7 +231,10 @@ func numToken(name string, x, y uint16) string {
 // diffTokens lists the identity components in which two ordinary queries differ.
 func diffTokens(a, b *qspec) []string {
 	var t []string
-	if !bytes.Equal(a.Name, b.Name) {
+	// Names that differ only in the case of ASCII letters are the SAME name in the DNS
+	// (RFC 4343): a cache may keep them apart (the pinned tree does) or let them share an
+	// entry; sharing is not a collision between different questions.
+	if !bytes.Equal(a.Name, b.Name) && nameDiffKind(a.Name, b.Name) != "name-case" {
 		t = append(t, nameDiffKind(a.Name, b.Name))
 	}
 	if a.Type != b.Type {
@@ -265,6 +268,10 @@ func (a *aggregator) collision(r *runner, m, i, pass int) {
 // supplied by the caller (built only for the first witnesses of a class).
 func (a *aggregator) collisionCase(st, sv *qspec, pass int, mk func() (replayCase, string)) {
 	tok := diffTokens(st, sv)
+	if len(tok) == 0 {
+		rep.Count("hits_shared_between_spellings_of_one_name(same question, allowed)", 1)
+		return
+	}
 	k := strings.Join(tok, "+")
 	a.mu.Lock()
 	defer a.mu.Unlock()
